@@ -106,7 +106,8 @@ def process_message(w):
             problems.append("device %d received %d copies, statement says %d" % (k, len(d.got), want))
     for k, c in enumerate(clients):
         p = pol[k] if k < len(pol) else None
-        want = 1 if (tag in FROM_DEVICE and c is not sender and lets_through(p, tag == "setBLOBVector")) else 0
+        relayed = tag in FROM_CLIENT or sender not in clients       # a device-kind message sent by a registered client is not relayed (C12 / C04)
+        want = 1 if (tag in FROM_DEVICE and relayed and c is not sender and lets_through(p, tag == "setBLOBVector")) else 0
         if len(c.got) != want or any(x is not msg for x in c.got):
             problems.append("client %d (policy %r for device %r) received %d copies of <%s>, statement says %d"
                             % (k, p, dev, len(c.got), tag, want))
